@@ -218,6 +218,9 @@ class Env:
             self.snapshot = self._walk()
             _install_hook()
             self._self_test()
+            if "sane" not in _A:
+                _A["sane"] = self._sanity()
+            self.sanity_problem = _A["sane"]
         except BaseException:
             self.close()
             raise
@@ -300,6 +303,35 @@ class Env:
         if kinds != ["read-outside", "write-outside"] or not blocked:
             raise core.HarnessError("audit hook self-test failed: %r blocked=%r" % (self.events, blocked))
         del self.events[:]
+
+    def _sanity(self):
+        """once per process: every calling-template kind, in both forms, hands the URI string unchanged to
+        lookup.adjust_uri (recorded on a throw-away lookup) and shows the content of an inside target."""
+        from mako.lookup import TemplateLookup
+
+        probe = "sub\\..//.\\a.html\\"
+        for kind in KINDS:
+            for literal in (False, True):
+                L = TemplateLookup(directories=list(self.dirs), module_directory=self.moddir)
+                got = []
+                orig = L.adjust_uri
+                L.adjust_uri = lambda uri, rel, orig=orig, got=got: (got.append(uri), orig(uri, rel))[1]
+                if literal:
+                    self.nlit += 1
+                    name = "cl%d_%s.html" % (self.nlit, kind)
+                    path = os.path.join(self.T, "root", "sub", name)
+                    self._write(path, literal_caller(kind, probe))
+                    self.snapshot.add(path)
+                    st, out = self.gated(lambda: L.get_template("/sub/" + name).render_unicode())
+                else:
+                    st, out = self.gated(lambda: L.get_template("/sub/c_%s.html" % kind).render_unicode(u=probe))
+                del self.events[:]
+                if st != "ok" or got[:1] != [probe] or "INSIDE" not in out or "root/sub/a.html" not in out:
+                    # (gated: a broken tree must not write anywhere.)  Not raised here so that a broken tree is
+                    # still reported through its violations; run() raises HarnessError if nothing else was found.
+                    return "calling template %s (literal=%s) does not deliver the URI: adjust_uri saw %r, result %s %r" % (
+                        kind, literal, got, st, out)
+        return None
 
     def _arm(self):
         _A["events"] = self.events
@@ -559,6 +591,12 @@ def run_step(env, step, ev):
     raise core.HarnessError("unknown mode %r" % mode)
 
 
+def _note_sanity(env, ev):
+    if env.sanity_problem and not ev.labels.get("caller-unavailable"):
+        ev.label("caller-unavailable")
+        ev.notes["caller_unavailable_example"] = env.sanity_problem
+
+
 def run_case(case, ev):
     """A whole case (configuration + steps) on a fresh tree; raises Failure."""
     if "shard" in case:
@@ -568,6 +606,7 @@ def run_case(case, ev):
         return
     env = Env(case["cfg"])
     try:
+        _note_sanity(env, ev)
         for step in case["steps"]:
             try:
                 run_step(env, step, ev)
@@ -690,6 +729,7 @@ def shard_sweep(task):
     env = Env(task["cfg"])
     last = None
     try:
+        _note_sanity(env, ev)
         for step in _steps_for(task):
             try:
                 lab = run_step(env, step, ev)
